@@ -470,32 +470,60 @@ func ruleW2(c *Ctx) []Obligation {
 		k, ok := v.(*ssa.Const)
 		return ok && k.IsNil()
 	}
-	// latchTest: v is `fw.err != nil`, directly or as the result of a wrapper method returning it
-	var latchTest func(v ssa.Value, depth int) bool
-	latchTest = func(v ssa.Value, depth int) bool {
+	// latchKind: 1 when v is `fw.err != nil`, 2 when it is `fw.err == nil` (0 otherwise), directly or
+	// as the result of a wrapper method all of whose returns are one and the same of the two
+	var latchKind func(v ssa.Value, depth int) int
+	latchKind = func(v ssa.Value, depth int) int {
 		switch x := v.(type) {
 		case *ssa.BinOp:
-			return x.Op == token.NEQ && (loadOf(x.X, iErr) && isNilConst(x.Y) || loadOf(x.Y, iErr) && isNilConst(x.X))
+			if loadOf(x.X, iErr) && isNilConst(x.Y) || loadOf(x.Y, iErr) && isNilConst(x.X) {
+				switch x.Op {
+				case token.NEQ:
+					return 1
+				case token.EQL:
+					return 2
+				}
+			}
+			return 0
+		case *ssa.UnOp:
+			if x.Op == token.NOT {
+				switch latchKind(x.X, depth) {
+				case 1:
+					return 2
+				case 2:
+					return 1
+				}
+			}
+			return 0
 		case *ssa.Call:
 			callee := x.Call.StaticCallee()
 			if callee == nil || depth > 1 || callee.Signature.Recv() == nil || namedOf(callee.Signature.Recv().Type()) != wi.wrapper {
-				return false
+				return 0
 			}
-			all, n := true, 0
+			kind, n := -1, 0
 			for _, b := range callee.Blocks {
 				if len(b.Instrs) == 0 {
 					continue
 				}
 				if r, ok := b.Instrs[len(b.Instrs)-1].(*ssa.Return); ok {
 					n++
-					if len(r.Results) != 1 || !latchTest(r.Results[0], depth+1) {
-						all = false
+					k := 0
+					if len(r.Results) == 1 {
+						k = latchKind(r.Results[0], depth+1)
+					}
+					if kind == -1 {
+						kind = k
+					} else if kind != k {
+						kind = 0
 					}
 				}
 			}
-			return all && n > 0
+			if n == 0 || kind < 0 {
+				return 0
+			}
+			return kind
 		}
-		return false
+		return 0
 	}
 	// flow of a write's result into the bookkeeping stores
 	// start: the block from which the bookkeeping has to be reached on every returning path (nil:
@@ -628,11 +656,20 @@ func ruleW2(c *Ctx) []Obligation {
 					continue
 				}
 				iff, ok := b.Instrs[len(b.Instrs)-1].(*ssa.If)
-				if !ok || !latchTest(iff.Cond, 0) {
+				if !ok {
 					continue
 				}
-				if b.Succs[1].Dominates(sb) && !b.Succs[0].Dominates(sb) && b.Succs[1] != b.Succs[0] {
-					latched = true
+				// `if fw.err != nil { return }` with the write on the false side, or
+				// `if fw.err == nil { write }` with the write on the true side
+				switch latchKind(iff.Cond, 0) {
+				case 1:
+					if b.Succs[1].Dominates(sb) && !b.Succs[0].Dominates(sb) && b.Succs[1] != b.Succs[0] {
+						latched = true
+					}
+				case 2:
+					if b.Succs[0].Dominates(sb) && !b.Succs[1].Dominates(sb) && b.Succs[1] != b.Succs[0] {
+						latched = true
+					}
 				}
 			}
 			if !latched {
